@@ -30,6 +30,7 @@ type Out struct {
 	States      int64             `json:"states"`
 	StateHashes string            `json:"state_hashes_file,omitempty"`
 	Classes     []string          `json:"classes"`
+	NClassesD   int64             `json:"nclasses_disjoint"`
 	Outcomes    map[string]int64  `json:"outcomes"`
 	Samples     []any             `json:"samples"`
 	Violations  []*Violation      `json:"violations"`
@@ -41,6 +42,7 @@ type Out struct {
 	WallS       float64           `json:"wall_s"`
 	classes     map[string]struct{}
 	viol        map[string]*Violation
+	classesD    map[uint64]struct{}
 	sampleSeen  int64
 	sampleNext  int64
 }
@@ -65,7 +67,7 @@ func Init() *Out {
 	flag.Parse()
 	start = time.Now()
 	R = &Out{Property: *Prop, Outcomes: map[string]int64{}, Bounds: map[string]any{}, Counters: map[string]int64{},
-		classes: map[string]struct{}{}, viol: map[string]*Violation{}, Exhaustive: true}
+		classes: map[string]struct{}{}, classesD: map[uint64]struct{}{}, viol: map[string]*Violation{}, Exhaustive: true}
 	if *KnownFile != "" {
 		loadKnown(*KnownFile, *Prop)
 	}
@@ -125,11 +127,23 @@ func DeadlineTime() time.Time {
 
 func (o *Out) Eval()              { o.Evals++ }
 func (o *Out) Class(k string)     { o.classes[k] = struct{}{} }
+
+// ClassD records a distinct non-trivial case whose key is, by construction, never produced by
+// another shard (it contains the work-unit index); only a 64-bit hash is kept and the driver sums
+// the per-shard counts.
+func (o *Out) ClassD(k string) {
+	h := uint64(14695981039346656037)
+	for i := 0; i < len(k); i++ {
+		h ^= uint64(k[i])
+		h *= 1099511628211
+	}
+	o.classesD[h] = struct{}{}
+}
 func (o *Out) Outcome(k string)   { o.Outcomes[k]++ }
 func (o *Out) Count(k string)     { o.Counters[k]++ }
 func (o *Out) CountN(k string, n int64) { o.Counters[k] += n }
 func (o *Out) Note(f string, a ...any) { o.Notes = append(o.Notes, fmt.Sprintf(f, a...)) }
-func (o *Out) NClasses() int      { return len(o.classes) }
+func (o *Out) NClasses() int      { return len(o.classes) + len(o.classesD) }
 
 // Sample keeps up to max samples.
 func (o *Out) Sample(max int, s any) {
@@ -202,6 +216,7 @@ func (o *Out) Finish() {
 		o.Classes = append(o.Classes, k)
 	}
 	sort.Strings(o.Classes)
+	o.NClassesD = int64(len(o.classesD))
 	for _, v := range o.viol {
 		o.Violations = append(o.Violations, v)
 	}
